@@ -80,6 +80,7 @@ class TlsWorld {
     int setup_rc = 0;
     bool own_keys = true;           // false: keys and session id belong to the caller (multi-client histories, C14)
     void adopt(sslKeys_t *sk, sslKeys_t *ck, sslSessionId_t *s, const PairCfg &c) { skeys = sk; ckeys = ck; sid = s; pc = c; own_keys = false; }
+    bool record_granular = false;   // TLS: hand each queued unit (record) to the receiver in a feed call of its own
     bool keep_logs = false;         // endpoints record inbound/outbound bytes and application actions (C18)
 
     ~TlsWorld();
